@@ -29,6 +29,8 @@ import (
 
 	"elkverif/hx"
 
+	"github.com/elk-language/elk/position/diagnostic"
+
 	"github.com/elk-language/elk/bitfield"
 	"github.com/elk-language/elk/bytecode"
 	"github.com/elk-language/elk/types/checker"
@@ -266,6 +268,7 @@ type DumpReq struct {
 	Src       string `json:"src"`
 	Name      string `json:"name"`
 	Abort     bool   `json:"abort"`      // compile with AdditionalAbortChecks (as the REPL does)
+	Session   bool   `json:"session"`    // compile as a LATER input of an incremental checker session (REPL), after the input `nil`
 	TimeoutMs int    `json:"timeout_ms"` // default 20000
 }
 
@@ -347,7 +350,18 @@ func dumpOne(req *DumpReq) (ans *DumpAns, mustExit bool) {
 		if req.Abort {
 			flags = bitfield.BitField16FromBitFlag(checker.AdditionalAbortChecks)
 		}
-		fn, diags := checker.CheckSource(name, req.Src, nil, flags, nil)
+		var fn *vm.BytecodeFunction
+		var diags diagnostic.DiagnosticList
+		if req.Session {
+			c := checker.New()
+			c.SetAdditionalAbortChecks(req.Abort)
+			c.SetIncremental(true)
+			c.CheckSourceBytecode(name+".first", "nil")
+			c.ClearErrors()
+			fn, diags = c.CheckSourceBytecode(name, req.Src)
+		} else {
+			fn, diags = checker.CheckSource(name, req.Src, nil, flags, nil)
+		}
 		if diags != nil && diags.IsFailure() {
 			ans.Rejected = true
 			ans.Outcome = "rejected"
